@@ -34,7 +34,7 @@ Definition st_eqb (a b : st) : bool :=
   Z.eqb (x a) (x b) && pair_eqb (t a) (t b) && list_eqb Z.eqb (l a) (l b)
   && list_eqb pair_eqb (d a) (d b) && list_eqb Z.eqb (s a) (s b)
   && opt_eqb Z.eqb (f a) (f b) && opt_eqb Z.eqb (m a) (m b) && Z.eqb (p a) (p b)
-  && opt_eqb Z.eqb (c a) (c b) && Z.eqb (ad a) (ad b).
+  && opt_eqb Z.eqb (c a) (c b) && Z.eqb (ad a) (ad b) && opt_eqb Z.eqb (y a) (y b) && Z.eqb (ad2 a) (ad2 b).
 
 (* o_reg: digest of the sizes of all notifier lists of the object (handler registrations) *)
 Record obs := mkObs { o_out : outcome; o_st : st; o_log : list logent; o_reg : Z }.
